@@ -231,7 +231,7 @@ func checkC17(env *kernel.Env) {
 			name string
 			w    int
 		}
-		acts := []act{{"read", 6}}
+		acts := []act{{"read", 6}, {"noise", 2}}
 		if mayWrite && !x.readOnly {
 			acts = append(acts, act{"insert", 5}, act{"update", 4}, act{"delete", 2}, act{"insert-dup", 1}, act{"update-fault", 1})
 		}
@@ -265,6 +265,27 @@ func checkC17(env *kernel.Env) {
 		env.Kind(a)
 		who := fmt.Sprintf("s%d", x.idx+1)
 		switch a {
+		case "noise":
+			// statements that neither read nor write table data: they must leave
+			// the session's transaction exactly as it is (the reads that follow
+			// show it if they do not)
+			beginIfNeeded(x)
+			qs := []string{
+				"SHOW CREATE TABLE " + t.name, "SHOW CREATE VIEW v" + t.name, "SHOW TRIGGERS", "SHOW FULL TABLES", "SHOW TABLE STATUS",
+				"SHOW INDEX FROM " + t.name, "DESCRIBE " + t.name, "EXPLAIN SELECT * FROM v" + t.name, "EXPLAIN SELECT * FROM " + t.name + " WHERE id = 1",
+				"SELECT table_name FROM information_schema.tables WHERE table_schema = 'd'",
+				"SELECT table_name FROM information_schema.views WHERE table_schema = 'd'",
+				"SELECT column_name FROM information_schema.columns WHERE table_name = '" + t.name + "'",
+				"SHOW CREATE PROCEDURE pr" + t.name, "SHOW PROCEDURE STATUS", "SHOW VARIABLES LIKE 'autocommit'", "SELECT @@autocommit, @@transaction_isolation",
+				"SET @n = 1", "SELECT 1 INTO @m", "SHOW WARNINGS", "SHOW PROCESSLIST", "SHOW STATUS LIKE 'Threads%'", "SHOW DATABASES", "USE d",
+				"PREPARE pn FROM 'SELECT COUNT(*) FROM v" + t.name + "'", "SELECT COUNT(*) FROM (SELECT id FROM v" + t.name + ") x", "SELECT DATABASE(), LAST_INSERT_ID(), ROW_COUNT()",
+			}
+			q := qs[T.Draw(len(qs))]
+			r := x.s.Exec(q)
+			env.Logf("%s %s -> %s", who, q, ErrClass(r.Err))
+			if r.Err != nil {
+				env.Fail("read-succeeds", "noise-statement-error", "%s: %s failed: %v", who, q, r.Err)
+			}
 		case "read":
 			beginIfNeeded(x)
 			checkRead(x, t)
